@@ -74,15 +74,18 @@ struct NbCase
   int benchDim = -1; double benchWidth = 0;         // |x_d(target) - x_d(datum)| <= width
   int codeOpt = 0;                                  // 1: codes equal, 2: codes different
   bool fault = false; double fx0 = 0, fy0 = 0, fx1 = 0, fy1 = 0;  // one fault segment
+  bool noZ = false;        // input Db without any Z variable: no sample can be 'undefined'
+  bool nsmaxZero = false;  // pass nsmax = 0 literally (instead of the default ITEST) for 'no quota'
 };
 
-struct Cand { int idx; double d; double u, v; int secA, secB; };
+struct Cand { int idx; double d; double u, v; int secA, secB; std::vector<int> optA, optB; };   // opt*: admissible sectors (several when on a boundary)
 
 struct RefOut
 {
   std::vector<Cand> cand;
   std::vector<std::string> whyNot;  // per sample: reason it is not a candidate ("" = candidate)
-  bool onRadius = false, onSectorBoundary = false;
+  bool onRadius = false;
+  int nAmbiguous = 0;   // candidates exactly on a sector boundary (or at the target): they may be counted in either adjacent sector
   double dmax = 0;
 };
 
@@ -102,24 +105,47 @@ static void frameIncr(const NbCase& c, const P3& a, const P3& b, double w[3])
   double inc[3] = {a[0] - b[0], c.ndim > 1 ? a[1] - b[1] : 0., c.ndim > 2 ? a[2] - b[2] : 0.};
   double th = c.theta * M_PI / 180.;
   double cs = std::cos(th), sn = std::sin(th);
+  // the library uses exact sines / cosines for these four angles (GH::rotationGetSinCos)
   if (c.theta == 0) { cs = 1; sn = 0; }
   if (c.theta == 90) { cs = 0; sn = 1; }
+  if (c.theta == 180) { cs = -1; sn = 0; }
+  if (c.theta == 270) { cs = 0; sn = -1; }
   w[0] = inc[0] * cs + inc[1] * sn;
   w[1] = -inc[0] * sn + inc[1] * cs;
   w[2] = inc[2];
   if (c.hasCoef) for (int d = 0; d < 3; d++) w[d] /= c.coef[d];
 }
 
-static int sectorOf(double u, double v, int nsect, bool* boundary)
+// Admissible sectors of the direction (u,v): one sector, or the two adjacent ones when the direction lies on a sector
+// boundary, or every sector for the null increment (a datum at the target has no direction).
+// Boundary membership is decided exactly for the directions that can be on a boundary at all: all coordinates are
+// (dyadic) rationals, and a direction with rational coordinates has an angle that is a rational multiple of pi only if
+// it is a multiple of 45 degrees (u == 0, v == 0 or |u| == |v|, tested exactly); such a direction a45*45 deg is on a
+// boundary of the partition iff a45*45*nsect is a multiple of 360. Every other direction is interior (an epsilon test on
+// the floating-point angle is kept as a guard and only widens the admissible set).
+static void sectorOptions(double u, double v, int nsect, std::vector<int>& opts)
 {
+  opts.clear();
+  if (u == 0 && v == 0) { for (int k = 0; k < nsect; k++) opts.push_back(k); return; }
+  int a45 = -1;
+  if (v == 0) a45 = u > 0 ? 0 : 4;
+  else if (u == 0) a45 = v > 0 ? 2 : 6;
+  else if (std::fabs(u) == std::fabs(v)) a45 = u > 0 ? (v > 0 ? 1 : 7) : (v > 0 ? 3 : 5);
+  if (a45 >= 0)
+  {
+    int num = a45 * 45 * nsect;   // sector coordinate t = num / 360
+    if (num % 360 == 0) { int i = (num / 360) % nsect; opts.push_back(i); opts.push_back((i + nsect - 1) % nsect); }
+    else opts.push_back((num / 360) % nsect);
+    return;
+  }
   double ang = std::atan2(v, u);
   if (ang < 0) ang += 2 * M_PI;
   double t = ang * nsect / (2 * M_PI);
-  if (std::fabs(t - std::round(t)) < 1e-9) *boundary = true;
-  int s = (int)std::floor(t);
-  if (s >= nsect) s = nsect - 1;
-  if (s < 0) s = 0;
-  return s;
+  if (std::fabs(t - std::round(t)) < 1e-9) { int i = ((int)std::llround(t)) % nsect; opts.push_back(i); opts.push_back((i + nsect - 1) % nsect); return; }
+  int sct = (int)std::floor(t);
+  if (sct >= nsect) sct = nsect - 1;
+  if (sct < 0) sct = 0;
+  opts.push_back(sct);
 }
 
 static RefOut reference(const NbCase& c)
@@ -154,8 +180,10 @@ static RefOut reference(const NbCase& c)
     Cand k {i, d, w[0], w[1], 0, 0};
     if (sectors)
     {
-      k.secA = sectorOf(w[0], w[1], c.nsect, &r.onSectorBoundary);
-      k.secB = sectorOf(-w[0], -w[1], c.nsect, &r.onSectorBoundary);
+      sectorOptions(w[0], w[1], c.nsect, k.optA);
+      sectorOptions(-w[0], -w[1], c.nsect, k.optB);
+      k.secA = k.optA[0]; k.secB = k.optB[0];
+      if (k.optA.size() > 1) r.nAmbiguous++;
     }
     r.dmax = std::max(r.dmax, d);
     r.cand.push_back(k);
@@ -297,13 +325,40 @@ static bool judge(Ctx& C, const NbCase& c, const std::vector<int>& Sin, const st
   RefOut r = reference(c);
   C.eval();
   if (r.onRadius) { C.skip(); C.outcome("excluded:candidate-on-the-radius-or-fault"); return true; }
-  if (r.onSectorBoundary) { C.skip(); C.outcome("excluded:candidate-on-a-sector-boundary"); return true; }
-  Verdict v = judgeOne(c, r, S, false);
   bool sectors = c.ndim > 1 && c.nsect > 1;
+  Verdict v = judgeOne(c, r, S, false);
   if (!v.bad.empty() && sectors && (c.nsect % 2 == 1))
   {
     Verdict w = judgeOne(c, r, S, true);
     if (w.bad.empty()) { v = w; C.outcome("info:odd-nsect-partition-is-that-of-(datum-target)"); }
+  }
+  if (sectors && r.nAmbiguous > 0)
+  {
+    // candidates exactly on a sector boundary (or at the target): the returned set is accepted iff SOME admissible
+    // assignment of those candidates to their adjacent sectors satisfies the definition. Nothing else is excluded.
+    std::vector<int> amb;
+    double prod = 1;
+    for (size_t k = 0; k < r.cand.size(); k++) if (r.cand[k].optA.size() > 1) { amb.push_back((int)k); prod *= (double)r.cand[k].optA.size(); }
+    if (prod > 20000) { C.skip(); C.outcome("excluded:too-many-candidates-on-sector-boundaries"); return true; }
+    C.outcome("boundary-candidates-assigned-to-either-adjacent-sector");
+    for (int orient = 0; orient < ((c.nsect % 2 == 1) ? 2 : 1) && !v.bad.empty(); orient++)
+    {
+      std::vector<size_t> digit(amb.size(), 0);
+      for (;;)
+      {
+        for (size_t a = 0; a < amb.size(); a++)
+        {
+          Cand& q = r.cand[amb[a]];
+          if (orient == 0) q.secA = q.optA[digit[a]]; else q.secB = q.optB[digit[a] % q.optB.size()];
+        }
+        Verdict w = judgeOne(c, r, S, orient == 1);
+        if (w.bad.empty()) { v = w; break; }
+        size_t a = 0;
+        while (a < amb.size()) { if (++digit[a] < r.cand[amb[a]].optA.size()) break; digit[a] = 0; a++; }
+        if (a == amb.size()) break;
+      }
+    }
+    for (int a : amb) { r.cand[a].secA = r.cand[a].optA[0]; r.cand[a].secB = r.cand[a].optB[0]; }
   }
   if (!v.bad.empty())
   {
@@ -333,7 +388,7 @@ static bool judge(Ctx& C, const NbCase& c, const std::vector<int>& Sin, const st
   if (info)
   {
     std::vector<int> lit = literal(c, r);
-    if (v.ambiguousNmini || v.tieAtCut) {}
+    if (v.ambiguousNmini || v.tieAtCut || (sectors && r.nAmbiguous > 0)) {}
     else if (lit == S) C.outcome("info:equals-literal-convention");
     else C.outcome("info:convention_changes(differs-from-literal-but-satisfies-definition)");
   }
@@ -350,7 +405,7 @@ static Db* buildDb(const NbCase& c, bool withCode)
     for (int d = 0; d < c.ndim; d++) x[d].push_back(c.pts[i][d]);
     z[0].push_back(c.defined[i] ? 1. + 0.5 * (double)i : TEST);
   }
-  Db* db = make_db_xz(x, z);
+  Db* db = c.noZ ? make_db_xz(x, {}) : make_db_xz(x, z);
   bool anyMask = false;
   for (char a : c.active) if (!a) anyMask = true;
   if (anyMask)
@@ -381,7 +436,7 @@ static NeighMoving* buildNeigh(const NbCase& c)
     for (int d = 0; d < c.ndim; d++) coef.push_back(c.coef[d]);
     if (c.theta != 0) { ang.push_back(c.theta); for (int d = 1; d < c.ndim; d++) ang.push_back(0.); }
   }
-  NeighMoving* nb = NeighMoving::create(c.xmode != 0, c.nmaxi, c.radius, c.nmini, c.nsect, c.nsmax > 0 ? c.nsmax : ITEST, coef, ang);
+  NeighMoving* nb = NeighMoving::create(c.xmode != 0, c.nmaxi, c.radius, c.nmini, c.nsect, c.nsmax > 0 ? c.nsmax : (c.nsmaxZero ? 0 : ITEST), coef, ang);
   if (c.xmode == 2) nb->setFlagKFold(true);
   return nb;
 }
@@ -677,6 +732,110 @@ VF_PART(dim3)
   setDim(2);
 }
 
+// ---- part: exactly aligned geometry -------------------------------------------------------------------------------------
+// Data on an EXACT lattice and targets sharing their x (or y) coordinate with data on both sides, or sitting on a diagonal
+// of the lattice or on a datum: the increments in the ellipse frame are exactly axis-aligned / diagonal / null, which is what
+// the special-case branches of the sector computation (dx == 0 with dy >= 0 or < 0, dy == 0 with dx > 0 or < 0, both 0) need.
+// Rotations by 90 / 180 / 270 degrees are exact in the library, so the same happens in rotated frames.
+// Candidates exactly on a sector boundary are not excluded: they may count in either adjacent sector (see judge()).
+static std::vector<P3> exactLattice(int L) { std::vector<P3> p; for (int j = 0; j < L; j++) for (int i = 0; i < L; i++) p.push_back({(double)i, (double)j, 0.}); return p; }
+VF_PART(aligned)
+{
+  setDim(2);
+  struct AN { bool has; double c0, c1, theta; };
+  static const AN an[] = {{false, 1, 1, 0}, {true, 1, 1, 0}, {true, 1, 0.5, 0}, {true, 0.5, 1, 0}, {true, 1, 0.5, 90}, {true, 1, 1, 90}, {true, 1, 0.5, 180}, {true, 0.5, 1, 270}};
+  // targets: same x as a lattice column (data above and below), same y as a row (data left and right), on a diagonal, on a datum
+  static const P3 tg[] = {{1, 0.75, 0}, {1, 1.5, 0}, {0.25, 1, 0}, {1.5, 2, 0}, {0.5, 0.5, 0}, {1, 1, 0}, {2, -0.5, 0}, {-0.75, 0, 0}, {1.25, 1, 0}, {2, 1.75, 0}};
+  std::vector<P3> l3 = exactLattice(3), l4 = exactLattice(4);
+  std::vector<unsigned> sub3, sub4 = menuL4(false);
+  for (unsigned s = 0; s < 512; s++) if (popcount(s) >= 3 && popcount(s) <= (C.thorough() ? 7 : 4)) sub3.push_back(s);
+  static const int nsects[] = {2, 3, 4, 5, 6, 8}; static const int nsmaxs[] = {0, 1, 2}; static const int nmaxis[] = {1, 2, 3, 5, 100};
+  static const int nminis[] = {1, 3}; static const double radii[] = {TEST, 1.6};
+  Space sp;
+  sp.axis("aniso", 8).axis("target", 10).axis("mode", 2).axis("set", (int)(sub3.size() + sub4.size()));
+  for_each_case(C, sp, [&](uint64_t id, const std::vector<int>& idx) {
+    NbCase c;
+    bool big = idx[3] >= (int)sub3.size();
+    makeSamples(c, big ? l4 : l3, big ? sub4[idx[3] - sub3.size()] : sub3[idx[3]], idx[2] ? 3 : 0);
+    c.hasCoef = an[idx[0]].has; c.coef = {an[idx[0]].c0, an[idx[0]].c1, 1}; c.theta = an[idx[0]].theta;
+    c.tgt = tg[idx[1]];
+    Db* din = buildDb(c, false);
+    Db* dout = buildTarget(c);
+    // does the case contain what the part is about?
+    int nAxis = 0;
+    for (auto& p : c.pts) if (p[0] == c.tgt[0] || p[1] == c.tgt[1]) nAxis++;
+    for (double rad : radii) for (int nmini : nminis) for (int nmaxi : nmaxis) for (int nsect : nsects) for (int nsmax : nsmaxs)
+    {
+      if (nmaxi < nmini) continue;
+      c.radius = rad; c.nmini = nmini; c.nmaxi = nmaxi; c.nsect = nsect; c.nsmax = nsmax;
+      NeighMoving* nb = buildNeigh(c);
+      VectorInt ranks;
+      nb->attach(din, dout);
+      nb->select(0, ranks);
+      if (nAxis) C.outcome("case-with-axis-aligned-increments");
+      judge(C, c, toStd(ranks), "select", std::to_string(id), sigOf(c, id));
+      delete nb;
+    }
+    if (id % 3001 == 7) C.sample("{\"id\":" + std::to_string(id) + ",\"axes\":" + sp.describe(idx) + ",\"inner\":\"radius x nmini x nmaxi x nsect{2,3,4,5,6,8} x nsmax\"}");
+    delete din; delete dout;
+  });
+}
+
+// ---- part: remaining special-case branches of the selection code -----------------------------------------------------------
+//   nmaxi <= 0 (no upper limit), nsmax = 0 given literally, an input Db without any Z variable (nothing to discard),
+//   a target rank that does not exist (empty answer), a fault checker without faults (accepts everything).
+VF_PART(special_branches)
+{
+  setDim(2);
+  std::vector<P3> all = lattice2(4);
+  std::vector<unsigned> subsets = menuL4(false);
+  static Faults* nofaults = nullptr;
+  Space sp;
+  sp.axis("variant", 5).axis("aniso", 3).axis("target", (int)targets2().size()).axis("subset", (int)subsets.size());
+  for_each_case(C, sp, [&](uint64_t id, const std::vector<int>& idx) {
+    NbCase c;
+    int variant = idx[0];
+    makeSamples(c, all, subsets[idx[3]], variant == 2 ? 1 : 3);
+    static const int anm[] = {0, 2, 3};
+    const Aniso& a = anisos()[anm[idx[1]]];
+    c.hasCoef = a.has; c.coef = {a.c0, a.c1, 1}; c.theta = a.theta;
+    c.tgt = targets2()[idx[2]];
+    if (variant == 2) c.noZ = true;
+    Db* din = buildDb(c, false);
+    Db* dout = buildTarget(c);
+    static const int nmaxiMenu[] = {0, -1, ITEST};
+    paramLoop(C, c, {1, 4}, [&]() {
+      for (int sub = 0; sub < (variant == 0 ? 3 : 1); sub++)
+      {
+        NbCase d = c;
+        if (variant == 0) { if (c.nmaxi != 100) return; d.nmaxi = nmaxiMenu[sub]; }          // nmaxi <= 0: unlimited
+        if (variant == 1) { if (c.nsmax != 0 || c.nsect == 1) return; d.nsmaxZero = true; }   // nsmax == 0 literally
+        NeighMoving* nb = buildNeigh(d);
+        if (variant == 4) nb->addBiTargetCheck(BiTargetCheckFaults::create(nofaults));
+        VectorInt ranks;
+        if (nb->attach(din, dout) != 0) { C.violation("select:attach-failed", caseText(d, {}), std::to_string(id)); delete nb; return; }
+        if (variant == 3)
+        {
+          // a target that does not exist: the documented answer of ANeigh::select is an empty vector
+          ranks.push_back(5);
+          nb->select(1 + (int)(id % 3), ranks);
+          C.eval(); C.nontrivial(sigOf(d, id));
+          C.outcome(ranks.empty() ? "ok:invalid-target-gives-empty" : "VIOLATION");
+          if (!ranks.empty()) C.violation("select:invalid-target-not-empty", "select() of a target rank that does not exist returns " + vstr(ranks), std::to_string(id));
+        }
+        else
+        {
+          nb->select(0, ranks);
+          judge(C, d, toStd(ranks), "select", std::to_string(id), Hash().u(sigOf(d, id)).u(sub).h, false);
+          if (variant == 0 && d.nmaxi <= 0) C.outcome("nmaxi<=0-unlimited-judged");
+        }
+        delete nb;
+      }
+    });
+    delete din; delete dout;
+  });
+}
+
 // ---- part: the same neighbourhood seen through krigtest().nbgh and the test_neigh() summary columns ---------------
 VF_PART(krigtest_summary)
 {
@@ -719,7 +878,7 @@ VF_PART(krigtest_summary)
       C.eval();
       RefOut r = reference(c);
       if (err || dout->getColumnNumber() != nc0 + 5) C.violation("summary:failed", "test_neigh failed or did not add 5 columns :: " + caseText(c, S), kase);
-      else if (!r.onRadius && !r.onSectorBoundary)
+      else if (!r.onRadius && r.nAmbiguous == 0)
       {
         double number = dout->getValueByColIdx(0, nc0), dmaxv = dout->getValueByColIdx(0, nc0 + 1), dminv = dout->getValueByColIdx(0, nc0 + 2), nes = dout->getValueByColIdx(0, nc0 + 3);
         bool sectors = c.nsect > 1;
